@@ -643,6 +643,9 @@ def fix_query(q):
 
 def replay(ctx, payload):
     pg = C.import_phasegen()
+    if payload.get('mode') == 'memo':
+        from props import corr_models
+        return corr_models.replay_memo(ctx, payload['memo_origin'])
     mode = payload['mode']
     if mode in ('hist', 'hist-off'):
         cfg = conv.cfg_from_json(payload['cfg'])
